@@ -403,6 +403,14 @@ def check_locking_deque(run, model, rule_ends, rule_token, rule_bound, rule_mono
             if isinstance(inner, ast.Call) and isinstance(inner.func, ast.Attribute) and inner.func.attr == 'full' and dotted(inner.func.value) == selfn + '.' + tq:
                 full_tests.append((t, 'false' if pol else 'true'))    # label of the not-full edge
             cp = compare_parts(teff)
+            if cp is None:
+                in_, pol_ = strip_not(teff)
+                cp_ = compare_parts(in_)
+                if cp_ and not pol_:
+                    # `not (a < b)` asks `a >= b`
+                    NEGOP = {ast.Lt: ast.GtE, ast.GtE: ast.Lt, ast.LtE: ast.Gt, ast.Gt: ast.LtE, ast.Eq: ast.NotEq, ast.NotEq: ast.Eq}
+                    if cp_[1] in NEGOP:
+                        cp = (cp_[0], NEGOP[cp_[1]], cp_[2])
             if cp and is_qsize(cp[0], selfn, tq) and is_len(cp[2], selfn, dq):
                 lt_tests.append((t, cp[1]))
             elif cp and is_len(cp[0], selfn, dq) and is_qsize(cp[2], selfn, tq):
